@@ -553,9 +553,10 @@ class Walker:
             self._list_model(st, call)
             if isinstance(call.func, ast.Name) and call.func.id == 'next':
                 st.fresh += 1
-                st.frame.callvals[_pos(call)] = SymVal(
-                    ast.Name(f'next\u00b7{st.fresh}', ast.Load()),
-                    tag='fresh', info={'call': sym})
+                nv = SymVal(ast.Name(f'next\u00b7{st.fresh}', ast.Load()),
+                            tag='fresh', info={'call': sym})
+                st.frame.callvals[_pos(call)] = nv
+                st.trace.append(Event('fresh', call, sym=nv, extra=sym))
         ev = Event('call', call, sym=sym, args=args,
                    func=res[0] if res else None,
                    extra={'in_comp': in_comp, 'keywords': {
